@@ -6,7 +6,7 @@ IdxLong == {0, 1, 8, 9, 10, HUGE}
 OpCode(o) == CASE o = "push_back" -> 1 [] o = "push_fore" -> 2 [] o = "insert" -> 3 [] o = "pull_back" -> 4
    [] o = "pull_fore" -> 5 [] o = "remove" -> 6 [] o = "at" -> 7 [] o = "fore" -> 8 [] o = "back" -> 9
    [] o = "sort_fore" -> 10 [] o = "sort_back" -> 11 [] o = "push_sort" -> 12 [] o = "swap_elems" -> 13
-   [] o = "swap_queues" -> 14 [] o = "drop" -> 15 [] o = "setz" -> 16 [] OTHER -> 0
+   [] o = "swap_queues" -> 14 [] o = "drop" -> 15 [] o = "setz" -> 16 [] o = "walk" -> 17 [] OTHER -> 0
 Emit == PrintT(ToJson(<<6666666, OpCode(last'.op), last'.a1, last'.a2, last'.ret, last'.val,
                         z[1], z[2], p[1], p[2], Len(s[1]), Len(s[2]),
                         z'[1], z'[2], p'[1], p'[2], Len(s'[1]), Len(s'[2]),
